@@ -283,3 +283,11 @@ def rule_runnable_exists(ctx):
 
 
 RULES.append(("C19.h", "the runnable_exists predicate covers the wind-down phase (else a handle released while a cancelled poll winds down frees the task twice)", rule_runnable_exists))
+
+
+def rule_slot(ctx):
+    from . import slotproto
+    slotproto.rules(ctx)
+
+
+RULES.append(("C19.i", "reply slot of driver-side queries: the cell is freed by exactly one side, its value dropped exactly once (per-path evaluation of the state guards)", rule_slot))
